@@ -130,7 +130,11 @@ def validate_job_dir_and_return_meta(output_dir):
         glob.glob(os.path.join(output_dir, "*", "screen_metadata.json"))
     )
 
-    if len(screen_metadata) == 0:
+    # screen_metadata.json alone does not prove that the step finished: the prospective
+    # workflow publishes it independently of the plate selection
+    selected_plate = list(glob.glob(os.path.join(output_dir, "*", "selected_plate")))
+
+    if len(screen_metadata) == 0 or len(selected_plate) == 0:
         return None
 
     screen_metadata = screen_metadata[0]
